@@ -9,6 +9,10 @@
 //!   treuse <hexPrev> <hex>      = ttape of <hex>, parsed into a tape that held <hexPrev> before; L3: == fresh
 //!   split|splitfb <hex>         `<scalar len> <rest len>`; L3: split == splitfb
 //!   quote|quotefb <hex>         `<scalar len> <rest len>` | `err`; L3: quote == quotefb
+//!   spec_full <doc> <gt> <hex> `<ttapeoff line> render:1 model:1`: <doc> = prefix encoding of a document of the full
+//!                               document type (Spec/TextDocFull.lean), <gt> its trailing blanks, <hex> its bytes; the
+//!                               Lean side answers with the SPEC's expected tape (`ftapeF`) and whether the spec's
+//!                               rendering gives <hex> and the model's parse gives the expected tape
 //!   wftext <hex>                `wf:<0|1>` | `err`; L3: independent structural check of the real tape
 //!   tcut <hex>                  for every prefix length 0..=n `ok:<ntokens>` | `err`, comma separated;
 //!                               L3: every successful prefix parse is consistent with the full parse
@@ -642,6 +646,334 @@ fn gen_exhaustive(g: &mut Gen, maxlen: usize) {
     }
 }
 
+// ---------------------------------------------------------------------------------------
+// documents of the FULL document type (lean/JominiModel/Spec/TextDocFull.lean: FVal / FFirst /
+// FFields / FVals / FItems) with their layout.  The builder writes the bytes and the prefix
+// encoding of the document (what `spec_full` hands to the Lean driver) in one pass; the gaps obey
+// the validity conditions of the spec (`FValidF`): an unquoted scalar is followed by a boundary
+// byte, a gap behind it never starts with ';', `?=` keeps apart from an unquoted key.
+
+const F_UNQ: [&str; 14] = ["a", "b", "name", "id", "k17", "yes", "no", "10", "0", "2", "-3", "1444.11.11", "0.500", "@var"];
+const F_QUO: [&str; 6] = ["", "x y", "a=b", "{ # }", "esc\\\"q", "long quoted scalar text"];
+const F_HDR: [&str; 4] = ["rgb", "hsv", "hsv360", "LIST"];
+const F_PNAME: [&str; 3] = ["x", "scope", "var_1"];
+
+pub struct FullB<'a> {
+    rng: &'a mut Rng,
+    pub bytes: Vec<u8>,
+    pub enc: Vec<String>,
+    prev_unq: bool,
+}
+
+fn hex_or_dash(b: &[u8]) -> String { if b.is_empty() { "-".into() } else { hex(b) } }
+
+impl<'a> FullB<'a> {
+    pub fn new(rng: &'a mut Rng) -> Self { FullB { rng, bytes: vec![], enc: vec![], prev_unq: false } }
+    fn tag(&mut self, t: &str) { self.enc.push(t.to_string()); }
+    fn lit(&mut self, b: &[u8]) { self.bytes.extend_from_slice(b); self.prev_unq = false; }
+    /// a gap (blanks, CR/LF, ';', comments); `next_boundary`: the lexeme behind it starts with a boundary byte
+    fn gap_bytes(&mut self, next_boundary: bool) -> Vec<u8> {
+        let mut out: Vec<u8> = vec![];
+        let n = match self.rng.below(10) { 0..=4 => 1, 5..=7 => 0, 8 => 2, _ => 1 + self.rng.below(3) };
+        for _ in 0..n {
+            match self.rng.below(12) {
+                0..=4 => out.push(b' '),
+                5 => out.push(b'\t'),
+                6 | 7 => out.push(b'\n'),
+                8 => out.extend_from_slice(b"\r\n"),
+                9 => { if self.prev_unq && out.is_empty() { out.push(b' '); } out.push(b';') }
+                10 => {
+                    out.push(b'#');
+                    let k = self.rng.below(8);
+                    for _ in 0..k { out.push(*self.rng.pick(b"abc {}=\"#x\\[]")); }
+                    out.push(b'\n');
+                }
+                _ => out.push(b' '),
+            }
+        }
+        if self.prev_unq && !next_boundary && out.is_empty() { out.push(b' '); }
+        out
+    }
+    fn gap(&mut self, next_boundary: bool) {
+        let g = self.gap_bytes(next_boundary);
+        self.enc.push(hex_or_dash(&g));
+        if !g.is_empty() { self.bytes.extend_from_slice(&g); self.prev_unq = false; }
+    }
+    fn empty_gap(&mut self) { self.enc.push("-".into()); }
+    fn scal_of(&mut self, quoted: bool, b: &[u8]) {
+        self.enc.push(format!("{}{}", if quoted { "q" } else { "u" }, hex(b)));
+        if quoted { self.bytes.push(b'"'); self.bytes.extend_from_slice(b); self.bytes.push(b'"'); self.prev_unq = false; }
+        else { self.bytes.extend_from_slice(b); self.prev_unq = true; }
+    }
+    /// gap + scalar (the gap knows whether the scalar is quoted: a quote is not a boundary byte)
+    fn gap_scal(&mut self, allow_quoted: bool) {
+        let quoted = allow_quoted && self.rng.chance(1, 4);
+        let b: Vec<u8> = if quoted { self.rng.pick(&F_QUO).as_bytes().to_vec() } else { self.rng.pick(&F_UNQ).as_bytes().to_vec() };
+        self.gap(false);
+        self.scal_of(quoted, &b);
+    }
+    fn op(&mut self, allow_exists: bool) -> Op {
+        let o = loop {
+            let o = if self.rng.chance(3, 5) { Op::Eq } else { *self.rng.pick(&Op::ALL) };
+            if allow_exists || o != Op::Exists { break o; }
+        };
+        o
+    }
+    fn op_name(o: Op) -> &'static str {
+        match o { Op::Eq => "eq", Op::Lt => "lt", Op::Le => "le", Op::Gt => "gt", Op::Ge => "ge", Op::Ne => "ne", Op::Exact => "ex", Op::Exists => "xs" }
+    }
+    /// gap + operator
+    fn gap_op(&mut self, allow_exists: bool) {
+        let o = self.op(allow_exists);
+        // '?' is not a boundary byte; every other operator starts with one
+        self.gap(o != Op::Exists);
+        self.enc.push(Self::op_name(o).to_string());
+        self.lit(o.symbol().as_bytes());
+    }
+
+    // ---- values -------------------------------------------------------------------------
+    /// any value; `skip_open`: the value is the inside of a `ghostIn` (its gap is empty, its `{` is written already)
+    fn value(&mut self, d: usize) {
+        if d == 0 || self.rng.chance(2, 5) {
+            self.tag("S");
+            self.gap_scal(true);
+        } else if self.rng.chance(1, 8) {
+            self.tag("E");
+            self.gap(true); self.lit(b"{"); self.gap(true); self.lit(b"}");
+        } else {
+            self.container(d, false, false);
+        }
+    }
+    /// a non-empty container; `scalar_led`: its first token behind `{` is a scalar
+    fn container(&mut self, d: usize, scalar_led: bool, skip_open: bool) {
+        let d1 = d.saturating_sub(1);
+        let kind = if scalar_led { *self.rng.pick(&[0usize, 0, 1, 1, 4, 5]) } else { self.rng.below(7) };
+        let open = |s: &mut Self| { if skip_open { s.empty_gap(); } else { s.gap(true); s.lit(b"{"); } };
+        match kind {
+            0 => { // object
+                self.tag("O"); open(self);
+                self.gap(false); self.first(d1, scalar_led);
+                let n = self.rng.below(3); self.fields(d1, n);
+                self.gap(true); self.lit(b"}");
+            }
+            1 => { // array, first element a scalar
+                self.tag("A"); open(self);
+                self.gap_scal(true);
+                let n = self.rng.below(4); self.vals(d1, n);
+                self.gap(true); self.lit(b"}");
+            }
+            2 => { // array, first element a container
+                self.tag("C"); open(self);
+                self.container(d1, false, false);
+                let n = self.rng.below(3); self.vals(d1, n);
+                self.gap(true); self.lit(b"}");
+            }
+            3 => { // ghost `{}` at the start of a braced value
+                if skip_open { return self.container(d, scalar_led, skip_open); }
+                self.tag("G");
+                self.gap(true); self.lit(b"{"); self.gap(true); self.lit(b"{"); self.gap(true); self.lit(b"}");
+                if self.rng.chance(1, 6) {
+                    self.tag("E"); self.empty_gap(); self.gap(true); self.lit(b"}");
+                } else {
+                    self.container(d, false, true);
+                }
+            }
+            4 => { // object -> mixed
+                self.tag("M"); open(self);
+                self.gap(false); self.first(d1, scalar_led);
+                let n = self.rng.below(2); self.fields(d1, n);
+                self.gap_scal(true);
+                let n = self.rng.below(5); self.items(d1, n, true);
+                self.gap(true); self.lit(b"}");
+            }
+            5 => { // array that turns mixed, first element a scalar
+                self.tag("X"); open(self);
+                self.gap_scal(true);
+                let n = self.rng.below(3); self.vals(d1, n);
+                self.gap_scal(true);
+                self.gap_op(false);
+                let n = 1 + self.rng.below(4); self.items(d1, n, true);
+                self.gap(true); self.lit(b"}");
+            }
+            _ => { // array that turns mixed, first element a container
+                self.tag("Y"); open(self);
+                self.container(d1, false, false);
+                let n = self.rng.below(2); self.vals(d1, n);
+                self.gap_scal(true);
+                self.gap_op(false);
+                let n = 1 + self.rng.below(4); self.items(d1, n, true);
+                self.gap(true); self.lit(b"}");
+            }
+        }
+    }
+    fn first(&mut self, d: usize, scalar_led: bool) {
+        let k = if scalar_led { *self.rng.pick(&[0usize, 0, 1]) } else { self.rng.below(6) };
+        match k {
+            0 | 4 | 5 => {
+                self.tag("K");
+                // (the gap in front of the key is the object's `g0`, written by the caller)
+                let quoted = self.rng.chance(1, 5);
+                let b: Vec<u8> = if quoted { self.rng.pick(&F_QUO).as_bytes().to_vec() } else { self.rng.pick(&F_UNQ).as_bytes().to_vec() };
+                if quoted && self.prev_unq { /* cannot happen: a `{` or a gap precedes */ }
+                self.scal_of(quoted, &b);
+                self.gap_op(true);
+                self.value(d);
+            }
+            1 => { self.tag("F"); self.field_hdr(d); let n = self.rng.below(2); self.fields(d, n); }
+            2 => { self.tag("F"); self.field_pval(); let n = self.rng.below(2); self.fields(d, n); }
+            _ => {
+                self.tag("F");
+                if self.rng.chance(1, 2) { self.field_pobj(d); } else { self.field_phdr(d); }
+                let n = self.rng.below(2); self.fields(d, n);
+            }
+        }
+    }
+    fn field_hdr(&mut self, d: usize) {
+        self.tag("h");
+        self.gap_scal(true); self.gap_op(true);
+        let h = self.rng.pick(&F_HDR).as_bytes().to_vec();
+        self.gap(false); self.scal_of(false, &h);
+        self.container(d, false, false);
+    }
+    fn param_open(&mut self) {
+        self.gap(true);
+        let u = self.rng.chance(1, 3);
+        let name = self.rng.pick(&F_PNAME).as_bytes().to_vec();
+        self.enc.push(if u { "1".into() } else { "0".into() });
+        self.enc.push(hex(&name));
+        self.lit(b"[["); if u { self.lit(b"!"); }
+        self.lit(&name); self.lit(b"]");
+    }
+    fn field_pval(&mut self) {
+        self.tag("p"); self.param_open();
+        self.gap_scal(false); self.gap(true); self.lit(b"]");
+    }
+    fn field_phdr(&mut self, d: usize) {
+        self.tag("r"); self.param_open();
+        self.gap_scal(false); self.gap(true); self.lit(b"]");
+        self.container(d, false, false);
+    }
+    fn field_pobj(&mut self, d: usize) {
+        self.tag("o"); self.param_open();
+        self.gap_scal(false); self.gap_op(true);
+        self.value(d);
+        let n = self.rng.below(2); self.fields(d, n);
+        self.gap(true); self.lit(b"]");
+    }
+    /// `n` fields and the terminator
+    fn fields(&mut self, d: usize, n: usize) {
+        for _ in 0..n {
+            match self.rng.below(12) {
+                0..=5 => { self.tag("c"); self.gap_scal(true); self.gap_op(true); self.value(d); }
+                6 => {
+                    // implicit `=`: the value is braced
+                    self.tag("i"); self.gap_scal(true);
+                    if d == 0 || self.rng.chance(1, 4) { self.tag("E"); self.gap(true); self.lit(b"{"); self.gap(true); self.lit(b"}"); }
+                    else { self.container(d, false, false); }
+                }
+                7 => { self.tag("g"); self.gap(true); self.lit(b"{"); self.gap(true); self.lit(b"}"); }
+                8 if d > 0 => self.field_hdr(d),
+                9 => self.field_pval(),
+                10 if d > 0 => self.field_pobj(d),
+                11 if d > 0 => self.field_phdr(d),
+                _ => { self.tag("c"); self.gap_scal(true); self.gap_op(true); self.value(d); }
+            }
+        }
+        self.tag(".");
+    }
+    fn vals(&mut self, d: usize, n: usize) {
+        for _ in 0..n { self.value(d); }
+        self.tag(".");
+    }
+    /// the array part of a container in mixed mode; `first`: the first item is a scalar (what follows
+    /// the scalar that opens the array part must not be an operator or a `{`)
+    fn items(&mut self, d: usize, n: usize, first: bool) {
+        let mut after_op = false;
+        for i in 0..n {
+            let force_scalar = first && i == 0;
+            let r = self.rng.below(10);
+            if force_scalar || r < 5 || (after_op && r < 8) {
+                self.tag("s"); self.gap_scal(true); after_op = false;
+            } else if r < 7 && !after_op && i + 1 < n {
+                self.tag("t"); self.gap_op(false); after_op = true;
+            } else if d > 0 {
+                self.tag("v"); self.container(d, true, false); after_op = false;
+            } else {
+                self.tag("s"); self.gap_scal(true); after_op = false;
+            }
+        }
+        if after_op { self.tag("s"); self.gap_scal(true); }
+        self.tag(".");
+    }
+}
+
+/// one document of the full type: (prefix encoding, trailing blanks, bytes incl. the trailing blanks)
+pub fn gen_full(rng: &mut Rng) -> (String, Vec<u8>, Vec<u8>) {
+    let n = 1 + rng.below(4);
+    let d = 1 + rng.below(3);
+    let mut b = FullB::new(rng);
+    b.fields(d, n);
+    b.prev_unq_guard();
+    let gt = b.trailing();
+    let FullB { bytes, enc, .. } = b;
+    (enc.join(","), gt, bytes)
+}
+
+impl<'a> FullB<'a> {
+    fn prev_unq_guard(&mut self) {}
+    fn trailing(&mut self) -> Vec<u8> {
+        let g = self.gap_bytes(true);
+        self.bytes.extend_from_slice(&g);
+        g
+    }
+}
+
+/// the bytes of a random document of the full document type under a random valid layout
+/// (for other slices' generators)
+pub fn gen_full_doc(rng: &mut Rng) -> Vec<u8> { gen_full(rng).2 }
+
+/// shapes outside the full document type (quirks of the array part of a mixed container)
+fn gen_full_quirks(g: &mut Gen) {
+    const Q: [&str; 12] = [
+        "x={a=b c d {} e f}", "x={a=b c d {} e=f g}", "x={a=b c d { {1} } e}", "x={a=b c d {{} 1} e=f}",
+        "x={a=b c d [[p] v] e}", "x={1 2=3 {} 4=5}", "x={1 2=3 { {a} } 4}", "x={ {a} 1 2=3 {} 5 }",
+        "x={a=b c d {} }", "x={a=b c d {} } y=z", "a=b c d {} e=f", "x={a=b c d {e} f g=h {} i}",
+    ];
+    let lay = LayoutCfg::full();
+    for q in Q.iter() {
+        g.emit(format!("ttape {}", hex(q.as_bytes())));
+        g.emit(format!("wftext {}", hex(q.as_bytes())));
+        g.emit(format!("tcut {}", hex(q.as_bytes())));
+        // the same under random blanks between the bytes that are separated by a blank already
+        for _ in 0..4 {
+            let mut out = vec![];
+            for &c in q.as_bytes() {
+                if c == b' ' { let n = 1 + g.rng.below(3); for _ in 0..n { out.push(*g.rng.pick(b" \n\t")); } }
+                else { out.push(c); }
+            }
+            let _ = &lay;
+            g.emit(format!("ttape {}", hex(&out)));
+        }
+    }
+}
+
+/// documents of the full document type through every correspondence op, and `spec_full`
+pub fn gen_full_docs(g: &mut Gen, n: usize) {
+    let mut prev: Vec<u8> = vec![];
+    for i in 0..n {
+        let (enc, gt, bytes) = gen_full(&mut g.rng);
+        if bytes.len() > 600 { continue; }
+        g.count("full:doc");
+        g.emit(format!("spec_full {} {} {}", enc, hex_or_dash(&gt), hex(&bytes)));
+        g.emit(format!("ttape {}", hex(&bytes)));
+        if i % 2 == 0 { g.emit(format!("wftext {}", hex(&bytes))); }
+        if i % 3 == 0 { g.emit(format!("treuse {} {}", hex_or_dash(&prev), hex(&bytes))); }
+        if i % 8 == 0 && bytes.len() <= 200 { g.emit(format!("tcut {}", hex(&bytes))); }
+        prev = bytes;
+    }
+    gen_full_quirks(g);
+}
+
 pub fn gen_c01(g: &mut Gen) {
     let n_docs = g.budget(4000, 60_000);
     gen_docs(g, n_docs);
@@ -653,6 +985,8 @@ pub fn gen_c01(g: &mut Gen) {
         let m = malformed(g);
         g.emit(format!("ttape {}", hex(&m)));
     }
+    let n_full = g.budget(2500, 40_000);
+    gen_full_docs(g, n_full);
 }
 
 /// C06 (text half): any input; emphasis on tolerated malformations
@@ -668,6 +1002,12 @@ pub fn gen_wf(g: &mut Gen) {
         };
         g.emit(format!("wftext {}", hex(&bytes)));
     }
+    // documents of the full document type (mixed containers with containers / operators, arrays that turn mixed, …)
+    let nf = g.budget(1500, 30_000);
+    for _ in 0..nf {
+        let bytes = gen_full_doc(&mut g.rng);
+        g.emit(format!("wftext {}", hex(&bytes)));
+    }
     let maxlen = g.budget(3, 5);
     gen_exhaustive(g, maxlen);
 }
@@ -681,6 +1021,13 @@ pub fn gen_cut(g: &mut Gen) {
         let bytes = if i % 2 == 0 { render_canonical(&d.lex) } else { render_layout(&mut g.rng, &lay, &d.lex) };
         if bytes.len() > 400 { continue; }
         g.count("cut:doc");
+        g.emit(format!("tcut {}", hex(&bytes)));
+    }
+    let nf = g.budget(250, 6_000);
+    for _ in 0..nf {
+        let bytes = gen_full_doc(&mut g.rng);
+        if bytes.len() > 250 { continue; }
+        g.count("cut:full-doc");
         g.emit(format!("tcut {}", hex(&bytes)));
     }
 }
@@ -799,6 +1146,14 @@ pub fn exec(w: &[&str], obs: &mut Obs) -> Option<String> {
                 },
                 Err(_) => Some("err".into()),
             }
+        }
+        ["spec_full", _doc, _gt, h] => {
+            // the Lean side computes the expected tape (with the positions) from the document (`ftapeF`), checks
+            // that the document renders to these bytes and that the model produces the expected tape
+            let d = unhex(h)?;
+            count_tape(obs, &d);
+            obs.count("spec_full");
+            Some(format!("{} render:1 model:1", tape_line(&d, true)))
         }
         ["tcut", h] => {
             let d = unhex(h)?;
